@@ -79,11 +79,8 @@ fn universe_fronts() -> Vec<Request> {
 }
 
 fn normalise(mut s: ConfigState) -> ConfigState {
+    // request_counts is a census of received requests, not configuration
     s.request_counts.clear();
-    s.backends.retain(|_, v| !v.is_empty());
-    s.tcp_fronts.retain(|_, v| !v.is_empty());
-    s.udp_fronts.retain(|_, v| !v.is_empty());
-    s.certificates.retain(|_, v| !v.is_empty());
     s
 }
 
